@@ -152,7 +152,7 @@ func (e *Ev) specExpr(s string) Term {
 		// need arithmetic in the pattern, which E-matching cannot do. When j indexes two different
 		// slices (a[j] == b[j]) the formula is emitted twice, re-indexed on either side, so that it
 		// can be instantiated from terms of both heaps.
-		if len(smtNames) == 1 && q == "forall" && binds[0] == fmt.Sprintf("(%s Int)", smtNames[0]) {
+		if len(smtNames) == 1 && binds[0] == fmt.Sprintf("(%s Int)", smtNames[0]) {
 			nm := smtNames[0]
 			cands := e.qindex[nm]
 			delete(e.qindex, nm)
@@ -168,13 +168,18 @@ func (e *Ev) specExpr(s string) Term {
 				bs = strings.ReplaceAll(bs, nm+")", "(- "+p+" "+off+"))")
 				bs = strings.ReplaceAll(bs, nm+" ", "(- "+p+" "+off+") ")
 				pat := strings.ReplaceAll(sel, "(+ "+off+" "+nm+")", p)
-				versions = append(versions, fmt.Sprintf("(forall ((%s Int)) (! %s :pattern (%s)))", p, bs, pat))
+				versions = append(versions, fmt.Sprintf("(%s ((%s Int)) (! %s :pattern (%s)))", q, p, bs, pat))
 			}
 			if len(versions) > 0 {
+				if q == "exists" {
+					// each version is equivalent; the disjunction lets a negated occurrence be
+					// instantiated from either heap's terms
+					return Term{S: smtOr(versions...), Sort: sBool, T: boolT}
+				}
 				return Term{S: smtAnd(versions...), Sort: sBool, T: boolT}
 			}
 		}
-		if len(smtNames) > 1 && q == "forall" {
+		if len(smtNames) > 1 {
 			// several bound variables: each one that is used as a plain slice index is re-indexed on
 			// its first use; the accesses together form one multi-pattern
 			bs := body.S
@@ -204,13 +209,31 @@ func (e *Ev) specExpr(s string) Term {
 				pats = append(pats, strings.ReplaceAll(sel, "(+ "+off+" "+nm+")", p))
 			}
 			if len(pats) > 0 {
-				return Term{S: fmt.Sprintf("(forall (%s) (! %s :pattern (%s)))", strings.Join(nb, " "), bs, strings.Join(pats, " ")), Sort: sBool, T: boolT}
+				return Term{S: fmt.Sprintf("(%s (%s) (! %s :pattern (%s)))", q, strings.Join(nb, " "), bs, strings.Join(pats, " ")), Sort: sBool, T: boolT}
 			}
 		}
 		for _, nm := range smtNames {
 			delete(e.qindex, nm)
 		}
 		bs := body.S
+		if k := strings.Index(bs, "(trig$"); k >= 0 {
+			// explicit trigger marker
+			depth, end := 0, -1
+			for j := k; j < len(bs); j++ {
+				if bs[j] == '(' {
+					depth++
+				} else if bs[j] == ')' {
+					depth--
+					if depth == 0 {
+						end = j + 1
+						break
+					}
+				}
+			}
+			if end > 0 {
+				return Term{S: fmt.Sprintf("(%s (%s) (! %s :pattern (%s)))", q, strings.Join(binds, " "), bs, bs[k:end]), Sort: sBool, T: boolT}
+			}
+		}
 		return Term{S: fmt.Sprintf("(%s (%s) %s)", q, strings.Join(binds, " "), bs), Sort: sBool, T: boolT}
 	}
 	if parts := splitTop(s, "<==>"); len(parts) > 1 {
@@ -318,6 +341,28 @@ func (e *Ev) specCall(name string, n *ast.CallExpr) (Term, bool) {
 			return Term{S: app(e.allocPred, s), Sort: sBool, T: boolT}, true
 		}
 		return Term{S: app("fresh$", s), Sort: sBool, T: boolT}, true
+	case "trig":
+		// trig(x, ...): an always-true marker whose only purpose is to be the instantiation
+		// trigger of the enclosing quantifier (for bound variables that occur under no function
+		// symbol, e.g. forall k, x :: trig(k, x) ==> (holds(m, k, x) <==> ...))
+		var sorts, as []string
+		for _, a := range n.Args {
+			t := e.ev(a)
+			if t.UConst != nil {
+				t = e.coerce(t, sInt, true, nil)
+			}
+			sorts = append(sorts, t.Sort)
+			as = append(as, t.S)
+		}
+		fn := "trig$" + sanitize(strings.Join(sorts, "_"))
+		var bs, vs []string
+		for i, srt := range sorts {
+			bs = append(bs, fmt.Sprintf("(t%d %s)", i, srt))
+			vs = append(vs, fmt.Sprintf("t%d", i))
+		}
+		e.g().Pre.add(fmt.Sprintf("(declare-fun %s (%s) Bool)", fn, strings.Join(sorts, " ")))
+		e.g().Pre.add(fmt.Sprintf("(assert (forall (%s) (! %s :pattern (%s))))", strings.Join(bs, " "), app(fn, vs...), app(fn, vs...)))
+		return Term{S: app(fn, as...), Sort: sBool, T: boolT}, true
 	case "inrange":
 		// inrange(x, lo, hi): lo <= x < hi on mathematical ints
 		x := e.asInt(e.ev(n.Args[0]))
